@@ -17,6 +17,10 @@ func init() {
 		Properties[pid].Rules = append(Properties[pid].Rules, Rule{pid + "/json-number-is-a-number", func(c *Ctx) { ruleJSONNumberIsANumber(c, pid+"/json-number-is-a-number") }})
 	}
 	Properties["C10"].Rules = append(Properties["C10"].Rules, Rule{"C10/ok-before-use", ruleOKBeforeUse})
+	for _, pid := range []string{"C08", "C05", "C02", "C11"} {
+		pid := pid
+		Properties[pid].Rules = append(Properties[pid].Rules, Rule{pid + "/extractor-covers-kinds", func(c *Ctx) { ruleExtractorCoversKinds(c, pid+"/extractor-covers-kinds") }})
+	}
 }
 
 // isJSONNumberTest: cond holds only where v's type is json.Number.
@@ -167,4 +171,38 @@ func ruleOKBeforeUse(c *Ctx) {
 		}
 	}
 	c.R.Floor(rule, "uses of a (pointer, ok) result", n, 3)
+}
+
+// The number extractor succeeds for every numeric kind (the kinds the classifier calls "integer" or "number"):
+// a kind it gives up on is a number for `type` and for the inference, but is skipped by minimum/maximum/multipleOf
+// and is never equal to the same number in enum or const.
+func ruleExtractorCoversKinds(c *Ctx, rule string) {
+	ext := c.NumberExtractor(rule)
+	if ext == nil || len(ext.Params) == 0 {
+		return
+	}
+	subj := c.subjectsDeep(ext, ext.Params[0])
+	kf := c.kindFlowWithTypeTests(ext, func(v ssa.Value) bool { return subj[v] }, nil)
+	var got KindSet
+	n := 0
+	core.EachInstr(ext, func(i ssa.Instruction) {
+		ret, ok := i.(*ssa.Return)
+		if !ok || len(ret.Results) != 2 {
+			return
+		}
+		for _, src := range append(traceSources(ret.Results[1]), ret.Results[1]) {
+			if k, ok := src.(*ssa.Const); ok && k.Value != nil && k.Value.String() == "true" {
+				got |= kf.At(ret)
+				n++
+				break
+			}
+		}
+	})
+	if n == 0 {
+		c.R.Unknown(rule, "extractor:success-exits", c.P.Pos(ext.Pos()), "no return of the number extractor answers ok=true with a constant")
+		return
+	}
+	numeric := intKinds | uintKinds | floatKinds
+	c.R.Check(numeric.SubsetOf(got), rule, "extractor:numeric-kinds", c.P.Pos(ext.Pos()), fmt.Sprintf("the extractor can succeed for every kind in %s", numeric),
+		fmt.Sprintf("the number extractor succeeds only for the numeric kinds %s, not for all of %s: a value of the missing kind is still an integer for `type` and for the inferred schema, but minimum, maximum and multipleOf are skipped for it and it never equals the same number in enum or const", got&numeric, numeric))
 }
